@@ -50,6 +50,19 @@ OP(delpar_vector) { return vnacal_delete_parameter(F->vcp, F->p_vector); }
 OP(delpar_corr)   { return vnacal_delete_parameter(F->vcp, F->p_corr); }
 OP(make_unknown)  { int p = vnacal_make_unknown_parameter(F->vcp, F->p_vector); if (p >= 0) F->p_new = p; return p < 0 ? -1 : 0; }
 OP(make_corr_new) { int p = vnacal_make_correlated_parameter(F->vcp, F->p_new >= 0 ? F->p_new : F->p_scalar, F->f5, 5, F->sig5); return p < 0 ? -1 : 0; }
+OP(make_corr_null)
+{
+    /* documented special case: NULL sigma frequency vector borrows the grid
+       of the vector parameter the chain of "other" parameters ends in */
+    int p = vnacal_make_correlated_parameter(F->vcp,
+	    F->p_new >= 0 ? F->p_new : F->p_vector, NULL, 5, F->sig5);
+    if (p >= 0) {
+	for (int k = 0; k < 5; ++k)
+	    (void)vnacal_get_parameter_value(F->vcp, p, F->f5[k]);
+	F->p_new = p;
+    }
+    return p < 0 ? -1 : 0;
+}
 OP(delpar_new)    { return vnacal_delete_parameter(F->vcp, F->p_new >= 0 ? F->p_new : F->p_stale); }
 OP(free_L)        { NEED(F->vnpL); vnacal_new_free(F->vnpL); F->vnpL = NULL; return 0; }
 OP(free_S)        { NEED(F->vnpS); vnacal_new_free(F->vnpS); F->vnpS = NULL; return 0; }
@@ -167,7 +180,7 @@ static const struct { const char *name; op_fn *fn; } ops[] = {
     O(add_mapped), O(add_bad_param), O(add_rect), O(complete_L), O(solve_L),
     O(solve_S), O(solve_R), O(addcal_S), O(addcal_S_new), O(addcal_L),
     O(delcal_A), O(delcal_B), O(delpar_scalar), O(delpar_unknown),
-    O(delpar_vector), O(delpar_corr), O(make_unknown), O(make_corr_new),
+    O(delpar_vector), O(delpar_corr), O(make_unknown), O(make_corr_new), O(make_corr_null),
     O(delpar_new), O(free_L), O(free_S), O(save), O(load), O(apply_A),
     O(apply_B_ab), O(apply_loaded), O(set_m_error), O(set_fvec),
     O(new_zero_f), O(solve_A3), O(solve_A5), O(solve_A1), O(getval_shared),
